@@ -170,13 +170,21 @@ Proof.
 Qed.
 
 (** * Splice *)
-Theorem ex_substr_safe : forall (arr : list A) start count, no_panic (ex_substr arr start count).
+Lemma i64_small z : -9223372036854775808 <= z < 9223372036854775808 -> i64 z = z.
+Proof. intros H. unfold i64. rewrite Z.mod_small by lia. lia. Qed.
+
+(** a Go slice is shorter than 2^62 elements; both operands are at most the length, so their
+    int64 sum does not wrap - this is what the [count > length] test is for *)
+Theorem ex_substr_safe : forall (arr : list A) start count, len arr < 4611686018427387904 ->
+  no_panic (ex_substr arr start count).
 Proof.
-  intros. unfold ex_substr, no_panic.
+  intros arr start count HL. unfold ex_substr, no_panic.
   destruct (ex_substr_start_bad _ _) eqn:G1; [discriminate|].
   destruct (ex_substr_count_bad _ _) eqn:G2; [discriminate|].
+  unfold ex_substr_start_bad in G1. unfold ex_substr_count_bad in G2. bools.
+  cbv zeta. rewrite i64_small by lia.
   destruct (ex_substr_end_bad _ _) eqn:G3; [discriminate|].
-  unfold ex_substr_start_bad in G1. unfold ex_substr_count_bad in G2. unfold ex_substr_end_bad in G3. bools.
+  unfold ex_substr_end_bad in G3. bools.
   use (slice_ok arr start (start + count) ltac:(lia) ltac:(lia)). discriminate.
 Qed.
 
